@@ -22,22 +22,24 @@ def line_groups(sc, tier, prefix, which=("group", "single")):
     gs = []
 
     def rr(name, defs, canaries):
-        return Group(prefix + ".K2.RadRate." + name, "K2", "lemma_RadRate", sources=["src/radrate.c", "src/xrayglob.c"],
-                     extra=["harness/h_lines.c", stub_rr, common.STATE], nondet_static=tabs, unwind=30,
+        return Group(prefix + ".K2.RadRate." + name, "K2", "lemma_RadRate", sources=["src/radrate.c"],
+                     extra=["harness/h_lines.c", stub_rr, common.STATE], unwind=30,
                      backends=("cvc5",), canary_backends=("cvc5",), timeout=900, functions=["RadRate"],
                      native_harness="harness/h_lines.c", stubs_used=used2, harness_defines=defs, expect_canaries=canaries)
 
-    def le(name, defs, canaries):
-        return Group(prefix + ".K2.LineEnergy." + name, "K2", "lemma_LineEnergy", sources=["src/fluor_lines.c", "src/xrayglob.c"],
-                     extra=["harness/h_lines.c", stub_le, common.STATE], nondet_static=tabs, unwind=30, export_local=True,
+    def le(name, defs, canaries, attempt_only=False):
+        return Group(prefix + ".K2.LineEnergy." + name, "K2", "lemma_LineEnergy", sources=["src/fluor_lines.c"],
+                     extra=["harness/h_lines.c", stub_le, common.STATE], unwind=30, export_local=True,
                      backends=("cvc5",), canary_backends=("cvc5",), timeout=900,
                      functions=["LineEnergy", "LineEnergyComposed"], native_harness="harness/h_lines.c", stubs_used=used,
-                     harness_defines=defs, expect_canaries=canaries)
+                     harness_defines=defs, expect_canaries=canaries, attempt_only=attempt_only)
     if "group" in which:
         for m, c in (("KA_LINE", "RadRate KA"), ("KB_LINE", "RadRate KB"), ("LA_LINE", "RadRate LA"), ("LB_LINE", None)):
             gs.append(rr(m, ["-DFIXED_LINE=" + m], [c] if c else []))
-        for m, c in (("KA_LINE", "LineEnergy KA"), ("KB_LINE", "LineEnergy KB"), ("LA_LINE", "two-member"), ("LB_LINE", "LineEnergy LB")):
+        for m, c in (("KA_LINE", "LineEnergy KA"), ("KB_LINE", "LineEnergy KB"), ("LA_LINE", "two-member")):
             gs.append(le(m, ["-DFIXED_LINE=" + m], [c]))
+        # L-beta (13 members, each with a guarded product): no back end finishes in 15 min -> attempted in the thorough tier only
+        gs.append(le("LB_LINE", ["-DFIXED_LINE=LB_LINE"], ["LineEnergy LB"], attempt_only=True))
         for d in ctx["lines"]["doublets"]:
             gs.append(le(d[0], ["-DFIXED_LINE=" + d[0]], ["two-member"]))
         for m in ("KO_LINE", "KP_LINE"):
